@@ -4,7 +4,7 @@ SHELL := /bin/bash
 COQ_TIMEOUT ?= 1800
 J ?= 12
 
-.PHONY: setup all gen coq extract driver clean prectable onlinegen offlinegen offlinegen-check offlinegen-mutants denseonlinegen denseonlinegen-check denseonlinegen-mutants pastifiergen pastifiergen-check pastifiergen-mutants coqchk coqchk-float static
+.PHONY: setup all gen coq extract driver clean prectable onlinegen offlinegen offlinegen-check offlinegen-mutants denseonlinegen denseonlinegen-check denseonlinegen-mutants pastifiergen pastifiergen-check pastifiergen-mutants explainergen explainergen-check explainergen-mutants coqchk coqchk-float static
 
 # `make all` never stops at the first failure: a source file of nickovic/rtamt that a translator refuses, or a proof that no longer
 # checks against the regenerated text, must break the obligations of the properties that depend on it and of no other property.
@@ -18,7 +18,7 @@ all:
 	@($(MAKE) coq > build/status/coq.log 2>&1 && echo ok > build/status/coq) || (tail -40 build/status/coq.log > build/status/coq; true)
 	@($(MAKE) driver > build/status/driver.log 2>&1 && echo ok > build/status/driver) || (tail -40 build/status/driver.log > build/status/driver; true)
 	@grep -v "^COQC\|^COQDEP\|Closed under the global context\|^make" build/status/coq.log | tail -5; true
-	@for f in prectable offlinegen onlinegen denseonlinegen pastifiergen coq driver; do if [ "`head -c 2 build/status/$$f`" != "ok" ]; then echo "make all: step $$f failed (build/status/$$f)"; fail=1; fi; done; test -z "$$fail"
+	@for f in prectable offlinegen onlinegen denseonlinegen pastifiergen explainergen coq driver; do if [ "`head -c 2 build/status/$$f`" != "ok" ]; then echo "make all: step $$f failed (build/status/$$f)"; fail=1; fi; done; test -z "$$fail"
 
 coq/Makefile.coq: coq/_CoqProject
 	cd coq && coq_makefile -f _CoqProject -o Makefile.coq
@@ -32,6 +32,7 @@ gen:
 	@($(MAKE) -s onlinegen > build/status/onlinegen.log 2>&1 && echo ok > build/status/onlinegen) || (tail -20 build/status/onlinegen.log > build/status/onlinegen; true)
 	@($(MAKE) -s denseonlinegen > build/status/denseonlinegen.log 2>&1 && echo ok > build/status/denseonlinegen) || (tail -20 build/status/denseonlinegen.log > build/status/denseonlinegen; true)
 	@($(MAKE) -s pastifiergen > build/status/pastifiergen.log 2>&1 && echo ok > build/status/pastifiergen) || (tail -20 build/status/pastifiergen.log > build/status/pastifiergen; true)
+	@($(MAKE) -s explainergen > build/status/explainergen.log 2>&1 && echo ok > build/status/explainergen) || (tail -20 build/status/explainergen.log > build/status/explainergen; true)
 
 # the precedence table of the parser model is regenerated from rtamt's generated ANTLR parser on every build
 prectable:
@@ -97,6 +98,23 @@ pastifiergen-check: coq
 # semantic mutations + harmless rewrites of scratch copies of the four source files: translator verdict / first lemma that fails
 pastifiergen-mutants: coq
 	python3 tools/pastifiergen_mutants.py
+
+# the explainers (rtamt/explanation/{ltl,stl}/discrete_time/explainer.py, the forwarding helpers of explanations.py) are re-translated on every
+# build (fail-closed, as above: C20 is then reported as no longer shown); ExplainGenCorrect.v re-proves, against the new text, that the generated
+# visitor computes the hand model Explain.expl / Explain.explain through the erasure of NodeName.v and the dict / table abstraction
+explainergen:
+	@mkdir -p build
+	python3 tools/py2coq_explainer.py $(REPO) build/ExplainGen.v.new
+	@cmp -s build/ExplainGen.v.new coq/theories/ExplainGen.v || cp build/ExplainGen.v.new coq/theories/ExplainGen.v
+
+# differential check of the generated explainer against STLExplainer / LTLExplainer on random specifications and data (not part of `all`: ~11 min of coqc for 4000 cases)
+explainergen-check: coq
+	PYTHONDONTWRITEBYTECODE=1 PYTHONPATH=$(REPO) /venv/bin/python harness/explainergen_check.py --n 4000 build/ExplainGenCases.v
+	cd coq && timeout 1800 coqc -Q theories RV ../build/ExplainGenCases.v
+
+# semantic mutations + harmless rewrites of scratch copies of the four source files: translator verdict / first lemma that fails
+explainergen-mutants: coq
+	python3 tools/explainergen_mutants.py
 
 coq: coq/Makefile.coq
 	cd coq && timeout $(COQ_TIMEOUT) $(MAKE) -k -f Makefile.coq -j$(J)
